@@ -137,3 +137,12 @@ def show_facts(S, limit=12):
     from .dbg import showfact
     xs = sorted(showfact(f) for f in S if not str(f[0]).startswith('~'))
     return '; '.join(xs[:limit]) + (' ...' if len(xs) > limit else '')
+
+
+def in_field(pe, field, adt_suffix=None):
+    """the innermost named field of place expression pe is `field` (elements of a vector field count)"""
+    fs = path_fields(unload(pe))
+    if not fs:
+        return False
+    a, n = fs[-1]
+    return n == field and (adt_suffix is None or a.endswith(adt_suffix))
